@@ -1,6 +1,8 @@
 package main
 
 import (
+	"archive/tar"
+	"bytes"
 	"crypto/sha256"
 	"encoding/hex"
 	"encoding/json"
@@ -13,6 +15,7 @@ import (
 	"strings"
 	"time"
 
+	"github.com/pojntfx/stfs/pkg/config"
 	"github.com/spf13/afero"
 )
 
@@ -116,6 +119,33 @@ func roRun(prop, tier string, c Case, w *Worker) (res Result) {
 	}
 	wr.LocksSettled()
 	wr.Close()
+	// 1b. plain pipelines: the tape also carries members of the shape older versions wrote when a source grew or shrank while it
+	// was archived - the recorded logical size (STFS.UncompressedSize) disagrees with the content that is on the tape. Reading
+	// such a file through a read-only instance must not "repair" anything either
+	if cfg.Comp == "" && cfg.Enc == "" && cfg.Sig == "" && c.Seed%3 != 2 && c.Seed%5 > 1 { // not behind the cache layer: afero refuses to cache a file whose size differs from what Stat said
+		var buf bytes.Buffer
+		tw := tar.NewWriter(&buf)
+		for i, rec := range []string{"5", "20"} {
+			body := []byte("hello world")
+			_ = tw.WriteHeader(&tar.Header{Typeflag: tar.TypeReg, Name: fmt.Sprintf("/legacy-size-%d", i), Size: int64(len(body)), Mode: 0o644, ModTime: time.Unix(1600000000, 0), Format: tar.FormatPAX,
+				PAXRecords: map[string]string{"STFS.Version": "1", "STFS.Action": "CREATE", "STFS.UncompressedSize": rec}})
+			_, _ = tw.Write(body)
+		}
+		_ = tw.Close()
+		if f, err := os.OpenFile(tapeDir(src)+"/drive.tar", os.O_WRONLY|os.O_APPEND, 0); err == nil {
+			_, _ = f.Write(buf.Bytes())
+			_ = f.Close()
+			if lr, err := NewRig(src, cfg); err == nil {
+				if ierr := runIndex(lr, true); ierr != nil {
+					res.Verdict, res.Msg = "inconclusive", "indexing the tape with legacy-size members: "+ierr.Error()
+					lr.Close()
+					return
+				}
+				lr.Close()
+				res.count("tapes_with_legacy_size_members", 1)
+			}
+		}
+	}
 	// 2. read-only instance and writable twin over copies of the same data
 	rod, twd := w.NewDir("c15ro"), w.NewDir("c15tw")
 	if err := CloneDir(src, rod, !p.NoIndex); err != nil {
@@ -176,6 +206,26 @@ func roRun(prop, tier string, c Case, w *Worker) (res Result) {
 		return
 	}
 	defer ro.Close()
+	// some read-only instances are used through the documented caching composition (`stfs serve ftp --read-only -n memory|dir`):
+	// a refused write must not leave anything in the cache that later reads would return instead of the tape's content.
+	// The cache layer answers Stat from its own copies, so there only kind, size and content are compared with the twin
+	cached := false
+	switch c.Seed % 5 {
+	case 0:
+		ro.FSCache, cached = config.FileSystemCacheTypeMemory, true
+	case 1:
+		ro.FSCache, ro.FSCacheDir, cached = config.FileSystemCacheTypeDir, w.NewDir("c15cache")+"/filesystem", true
+	}
+	if cached {
+		variant += "+" + ro.FSCache + "-cache-composition"
+		res.count("instances_behind_the_cache_composition", 1)
+	}
+	plain := func(e Entry) Entry {
+		if cached {
+			e.Perm, e.Uid, e.Gid, e.Mtime, e.Atime = 0, 0, 0, 0, 0
+		}
+		return e
+	}
 	tw, err := NewRig(twd, cfg)
 	if err != nil {
 		res.Verdict, res.Msg = "inconclusive", "twin rig: "+err.Error()
@@ -265,16 +315,26 @@ func roRun(prop, tier string, c Case, w *Worker) (res Result) {
 			viol("mutator-succeeded|"+what, "%s succeeded on a read-only filesystem", what)
 			return false
 		}
-		if !errors.Is(err, os.ErrPermission) {
+		if !errors.Is(err, os.ErrPermission) && !cached { // behind the cache layer afero answers some calls itself (copying a directory into the cache: "is a directory")
 			viol("mutator-errclass|"+what, "%s failed with %q, not with a permission error", what, err)
 			return false
 		}
 		return true
 	}
 	kinds := map[string]bool{}
+	var roLinks afero.Fs = ro.FS
+	if cached {
+		roLinks = ro.S // the cache layer has no link methods; they are called on the filesystem below it
+	}
 	for i := 0; i < p.Calls; i++ {
 		pa := pickPath()
-		switch r.Intn(12) { // unusual argument shapes
+		shape := r.Intn(12)
+		if cached && shape == 1 {
+			// afero's cache layer itself mishandles a trailing slash (copyToLayer("/f/") creates a DIRECTORY /f in the cache before
+			// it fails, and later answers from it): not the read-only filesystem's doing, left out behind the cache layer
+			shape = 4
+		}
+		switch shape { // unusual argument shapes
 		case 0:
 			pa = "/"
 		case 1:
@@ -329,13 +389,15 @@ func roRun(prop, tier string, c Case, w *Worker) (res Result) {
 				pb = ""
 			}
 			calls = append(calls, fmt.Sprintf("Symlink(%q,%q)", pa, pb))
-			okc = mustPerm("Symlink", ro.FS.(afero.Linker).SymlinkIfPossible(pa, pb))
+			okc = mustPerm("Symlink", roLinks.(afero.Linker).SymlinkIfPossible(pa, pb))
 		case "openfile":
 			acc := []int{os.O_RDONLY, os.O_WRONLY, os.O_RDWR}[r.Intn(3)]
 			fl := acc
-			for _, b := range []int{os.O_CREATE, os.O_EXCL, os.O_TRUNC, os.O_APPEND} {
-				if r.Intn(3) == 0 {
-					fl |= b
+			if r.Intn(3) != 0 { // a third of the handles come from a plain open of the chosen access mode
+				for _, b := range []int{os.O_CREATE, os.O_EXCL, os.O_TRUNC, os.O_APPEND} {
+					if r.Intn(3) == 0 {
+						fl |= b
+					}
 				}
 			}
 			calls = append(calls, fmt.Sprintf("OpenFile(%q,%s)", pa, flagStr(fl)))
@@ -373,7 +435,7 @@ func roRun(prop, tier string, c Case, w *Worker) (res Result) {
 						h.Close()
 						return
 					}
-					if !errors.Is(e, os.ErrPermission) && !isDir {
+					if !errors.Is(e, os.ErrPermission) && !isDir && !cached {
 						viol("handle-mutator-errclass|"+hk, "%s failed with %q, not with a permission error", hk, e)
 						h.Close()
 						return
@@ -394,7 +456,7 @@ func roRun(prop, tier string, c Case, w *Worker) (res Result) {
 				viol("read-differs|stat", "Stat: read-only err=%v, writable twin err=%v", ea, eb)
 				return
 			}
-			if ea == nil && infoToEntry(a) != infoToEntry(b) {
+			if ea == nil && plain(infoToEntry(a)) != plain(infoToEntry(b)) {
 				viol("read-differs|stat", "Stat: read-only %+v, writable twin %+v", infoToEntry(a), infoToEntry(b))
 				return
 			}
@@ -426,7 +488,7 @@ func roRun(prop, tier string, c Case, w *Worker) (res Result) {
 			res.count("read_calls", 1)
 		case "lstat":
 			calls = append(calls, fmt.Sprintf("Lstat(%q)", pa))
-			_, _, ea := ro.FS.(afero.Lstater).LstatIfPossible(pa)
+			_, _, ea := roLinks.(afero.Lstater).LstatIfPossible(pa)
 			_, _, eb := tw.FS.(afero.Lstater).LstatIfPossible(pa)
 			okc = true
 			if (ea == nil) != (eb == nil) {
@@ -436,7 +498,7 @@ func roRun(prop, tier string, c Case, w *Worker) (res Result) {
 			res.count("read_calls", 1)
 		case "readlink":
 			calls = append(calls, fmt.Sprintf("Readlink(%q)", pa))
-			a, ea := ro.FS.(afero.LinkReader).ReadlinkIfPossible(pa)
+			a, ea := roLinks.(afero.LinkReader).ReadlinkIfPossible(pa)
 			b, eb := tw.FS.(afero.LinkReader).ReadlinkIfPossible(pa)
 			okc = true
 			if (ea == nil) != (eb == nil) || a != b {
@@ -458,6 +520,16 @@ func roRun(prop, tier string, c Case, w *Worker) (res Result) {
 	if err != nil {
 		viol("walk", "walking the read-only filesystem: %v", err)
 		return
+	}
+	if cached {
+		pt := Tree{}
+		for k, v := range ttree {
+			pt[k] = plain(v)
+		}
+		ttree = pt
+		for k, v := range rtree {
+			rtree[k] = plain(v)
+		}
 	}
 	if ds := DiffTrees(rtree, ttree, "readonly", "twin", true); len(ds) > 0 {
 		viol("read-differs|tree", "tree differs from the writable twin: %s", shortList(ds, 5))
